@@ -74,6 +74,73 @@ def liveAfter (live : List Addr) : List IterInput → List Addr
   | [] => live
   | i :: is => liveAfter (liveAtFlush live i) is
 
+/-! ### The heartbeat
+
+`with_heartbeat(interval, timeout)`: the app pings every connected client every `interval` and disconnects a
+client that has not answered within `timeout` ("if the client does not respond to any pings within `timeout`,
+the server will close the connection and run the configured callbacks", ping.rs). The model takes the clock
+readings as inputs (`willPing`, `timedOut`), so what they must be is demanded here, of the REAL run, from what
+can be observed from outside: when the client's socket delivered a Pong, when the loop polled, pinged and gave
+up. Times are natural numbers (ns, the resolution of the clock) on one monotonic clock. The loop reads the clock itself; the observer brackets
+each reading between two of its own observations on the loop's thread, hence the intervals. A Pong counts
+wherever it stands in the client's frame stream: alone, before or after a message, between the fragments of a
+message (RFC 6455 5.4, 5.5), several in a row. -/
+
+/-- What was observed about one client, in order. -/
+inductive HbEv
+  /-- a sign of life: the stream was created, or a Pong of the client was delivered to the server; the loop's
+  clock reading for it lies in `[lo, hi]` -/
+  | life (lo hi : Nat)
+  /-- the client was polled ("nothing") at a reading `≥ t` and then kept -/
+  | alive (t : Nat)
+  /-- the client was declared timed out at a reading `≤ t` -/
+  | timedOut (t : Nat)
+  deriving DecidableEq, Repr
+
+/-- A client whose last sign of life is less than `timeout` old is not timed out: at every `timedOut t` the
+latest sign of life before it is at least `timeout` old even when dated as early as possible. -/
+def liveClientKept (timeout : Nat) : Option (Nat × Nat) → List HbEv → Bool
+  | _, [] => true
+  | _, .life lo hi :: es => liveClientKept timeout (some (lo, hi)) es
+  | last, .alive _ :: es => liveClientKept timeout last es
+  | last, .timedOut t :: es =>
+    (match last with
+     | some (lo, _) => decide (lo + timeout ≤ t)
+     | none => true) && liveClientKept timeout last es
+
+/-- A client that has been silent for `timeout` is timed out at the next check: whenever it is kept at `t`, its
+latest sign of life, dated as late as possible, is less than `timeout` old. -/
+def silentClientTimedOut (timeout : Nat) : Option (Nat × Nat) → List HbEv → Bool
+  | _, [] => true
+  | _, .life lo hi :: es => silentClientTimedOut timeout (some (lo, hi)) es
+  | last, .timedOut _ :: es => silentClientTimedOut timeout last es
+  | last, .alive t :: es =>
+    (match last with
+     | some (_, hi) => decide (t < hi + timeout)
+     | none => true) && silentClientTimedOut timeout last es
+
+/-- The ping decisions of the loop, in order. -/
+inductive PingEv
+  /-- the loop decided to ping in an iteration that started at `i`; reported at `t` (`last_ping` lies in `[i, t]`);
+  the first entry of a run stands for the initial `last_ping` -/
+  | pinged (i t : Nat)
+  /-- the loop decided not to ping, in an iteration that started at `i` -/
+  | notPinged (i : Nat)
+  deriving DecidableEq, Repr
+
+/-- Pings are `interval` apart: never two less than `interval` apart, and no iteration without one when the last
+one is `interval` old. -/
+def pingCadenceOk (interval : Nat) : Option (Nat × Nat) → List PingEv → Bool
+  | _, [] => true
+  | last, .pinged i t :: es =>
+    (match last with
+     | some (i', _) => decide (i' + interval ≤ t)
+     | none => true) && pingCadenceOk interval (some (i, t)) es
+  | last, .notPinged i :: es =>
+    (match last with
+     | some (_, t') => decide (i < t' + interval)
+     | none => true) && pingCadenceOk interval last es
+
 /-! ### The trace -/
 
 def msgOf (a : Addr) : Effect → Option Msg
